@@ -93,7 +93,8 @@ pub fn body() -> impl Strategy<Value = Vec<u8>> {
 }
 
 pub fn key_hex() -> impl Strategy<Value = String> {
-    (prop::collection::vec(any::<u8>(), 32), any::<bool>()).prop_map(|(b, upper)| {
+    // 256-bit secrets as a rule; HMAC keys of other sizes (128 / 384 / 512 bit) are valid keys too
+    (prop_oneof![8 => prop::collection::vec(any::<u8>(), 32), 1 => prop::collection::vec(any::<u8>(), 16), 1 => prop::collection::vec(any::<u8>(), 48), 1 => prop::collection::vec(any::<u8>(), 64)], any::<bool>()).prop_map(|(b, upper)| {
         let h = hmacsha::hex_lower(&b);
         if upper {
             h.to_uppercase()
